@@ -3,12 +3,12 @@ package main
 import (
 	"context"
 	"fmt"
-	"runtime"
 	"net"
 	"net/http"
 	"net/http/httptest"
 	"net/url"
 	"os"
+	"runtime"
 	"sync"
 	"sync/atomic"
 	"time"
@@ -23,9 +23,9 @@ import (
 
 // Engine runs scripts against the real code and records traces.
 type Engine struct {
-	tr    *Tracer
-	self  int64
-	epoch int64 // incremented at the start of every run
+	tr          *Tracer
+	self        int64
+	epoch       int64 // incremented at the start of every run
 	censusEpoch int64 // run whose post-completion census has been taken
 
 	emu sync.Mutex
@@ -269,7 +269,7 @@ func (e *Engine) RunSched(sc *Script) []Ev {
 			if !gates.releaseOne(who) {
 				return
 			}
-		case "g:snd", "g:cls", "g:rcv", "g:rd", "g:wat", "g:hsv", "g:cpy":
+		case "g:snd", "g:cls", "g:rcv", "g:rd", "g:wat", "g:hsv", "g:cpy", "g:cln":
 			if !gates.releaseOne(who[2:]) {
 				return
 			}
